@@ -10,6 +10,7 @@ import (
 	"fmt"
 	"io"
 	"os"
+	"os/exec"
 	"sort"
 	"strings"
 	"time"
@@ -51,6 +52,51 @@ type cs struct {
 	Duplex bool `json:"duplex,omitempty"`
 	// U: unbounded exploration with sleep sets (every Mazurkiewicz trace x every read-size answer of the regime)
 	U bool `json:"unbounded,omitempty"`
+	// Race: not an exploration - the free-running race-detector pass (harness/racepass11)
+	Race bool `json:"race,omitempty"`
+}
+
+// runRace runs both directions of a link free on unmodified code (in-memory pipe and loopback TCP) under the race
+// detector: accesses between two synchronisation operations are atomic under the cooperative scheduler. Sampled.
+func runRace(ctx *runner.Ctx) {
+	count := "2"
+	if !ctx.Quick() {
+		count = "20"
+	}
+	args := []string{"test", "-race", "-vet=off", "-count=" + count}
+	if ctx.Quick() {
+		args = append(args, "-short")
+	}
+	if runner.RepoDir != "/repo" {
+		args = append(args, "-modfile="+os.Getenv("VERIF_WORK")+"/go.mod")
+	}
+	cmd := exec.Command("go", append(args, "./racepass11/")...)
+	cmd.Dir = "/verif/harness"
+	cmd.Env = append(os.Environ(), "GOFLAGS=-mod=mod", "GOPROXY=off")
+	out, err := cmd.CombinedOutput()
+	ctx.Eval(1)
+	o := string(out)
+	tail := o
+	if len(tail) > 1500 {
+		tail = tail[len(tail)-1500:]
+	}
+	k := cs{Race: true, Regime: "free-running"}
+	switch {
+	case strings.Contains(o, "WARNING: DATA RACE"):
+		i := strings.Index(o, "WARNING: DATA RACE")
+		end := i + 1500
+		if end > len(o) {
+			end = len(o)
+		}
+		ctx.Violate("data-race", "race detector report in free-running duplex transfers: "+o[i:end], k)
+	case err != nil && strings.Contains(o, "--- FAIL"):
+		ctx.Violate("wrong-delivery.free-running", "free-running duplex transfers failed: "+tail, k)
+	case err != nil:
+		panic("race pass could not run: " + tail)
+	default:
+		ctx.Outcome("race-pass-clean/count=" + count)
+		ctx.NontrivialN(1)
+	}
 }
 
 func seqString(ops []Op) string {
@@ -477,6 +523,9 @@ func report(ctx *runner.Ctx, k cs, kind, what string, r *csched.Result) {
 }
 
 func work(ctx *runner.Ctx) {
+	if ctx.Shard == 0 {
+		runRace(ctx)
+	}
 	if err := csched.SelfTest(); err != nil {
 		panic(err)
 	}
@@ -780,6 +829,10 @@ func replay(ctx *runner.Ctx, raw json.RawMessage) {
 	var k cs
 	if err := json.Unmarshal(raw, &k); err != nil {
 		panic(err)
+	}
+	if k.Race {
+		runRace(ctx)
+		return
 	}
 	runCase(ctx, k)
 }
